@@ -80,8 +80,9 @@ static struct in_addr *ares_save_opt_servers(const ares_channel_t *channel,
 }
 
 /* Save options from initialized channel */
-int ares_save_options(const ares_channel_t *channel,
-                      struct ares_options *options, int *optmask)
+static int ares_save_options_nolock(const ares_channel_t *channel,
+                                    struct ares_options  *options,
+                                    int                  *optmask)
 {
   size_t i;
 
@@ -236,6 +237,27 @@ int ares_save_options(const ares_channel_t *channel,
   *optmask = (int)channel->optmask;
 
   return ARES_SUCCESS;
+}
+
+int ares_save_options(const ares_channel_t *channel,
+                      struct ares_options *options, int *optmask)
+{
+  int rv;
+
+  /* The channel is shared state like for every other entry point: servers,
+   * sortlist, domains and lookups are replaced under the channel lock by
+   * setters, ares_reinit() and the event thread */
+  if (channel != NULL) {
+    ares_channel_lock(channel);
+  }
+
+  rv = ares_save_options_nolock(channel, options, optmask);
+
+  if (channel != NULL) {
+    ares_channel_unlock(channel);
+  }
+
+  return rv;
 }
 
 static ares_status_t ares_init_options_servers(ares_channel_t       *channel,
